@@ -29,6 +29,21 @@
 (* Whether a replier answers a bad REQUEST is unconstrained (no secret     *)
 (* follows from that alone).  Known deviations of the code are recognised  *)
 (* by signature and go to `known` instead of `viol` iff listed in K.       *)
+(*                                                                         *)
+(* Presence of token properties (strengthening round).  A delivery also    *)
+(* says which properties of the message were REMOVED (`strip`).  DDS       *)
+(* Security 1.1 Tables 49-51 leave the inclusion of some properties to the *)
+(* sender (OptProps: "the inclusion of the ... property is optional"); a   *)
+(* receiver cannot tell a message without them from what a conforming peer *)
+(* may have sent itself, and nothing that is signed changes.  Therefore    *)
+(*   - a clean message minus optional properties only is an EQUIVALENT     *)
+(*     copy: it MAY be accepted (state evolves as for a clean copy) and    *)
+(*     MAY be refused -- the property statement decides neither;           *)
+(*   - a BAD message stays bad whatever is removed from it: a replayed /   *)
+(*     altered message with optional properties stripped must not lead to  *)
+(*     authentication (the checks that bind a message to this handshake    *)
+(*     must not hang on properties an attacker can leave out);             *)
+(*   - removing any other property is an alteration like every other.      *)
 (***************************************************************************)
 EXTENDS Integers, Sequences, FiniteSets, TLC
 
@@ -59,17 +74,27 @@ AbsInit ==
 
 Put(f, k, v) == [x \in DOMAIN f \cup {k} |-> IF x = k THEN v ELSE f[x]]
 
-CleanCopy(to, mid, alt) == mid \in DOMAIN msgs /\ alt = "none" /\ msgs[mid].clean /\ msgs[mid].by # to
+\* properties whose inclusion DDS Security 1.1 leaves to the sender (Table 49 request, 50 reply, 51 final)
+OptProps(k) == IF k = "req" THEN {"hash_c1"}
+               ELSE IF k = "reply" THEN {"hash_c1", "hash_c2", "dh1"}
+               ELSE {"hash_c1", "hash_c2", "dh1", "dh2"}
+AllOptProps == {"hash_c1", "hash_c2", "dh1", "dh2"}
+
+FromPeer(to, mid) == mid \in DOMAIN msgs /\ msgs[mid].clean /\ msgs[mid].by # to
+\* byte-identical copy of a clean message of the peer
+CleanCopy(to, mid, alt, strip) == FromPeer(to, mid) /\ alt = "none" /\ strip = {}
+\* the same, minus properties the sender was free to leave out
+EquivCopy(to, mid, alt, strip) == FromPeer(to, mid) /\ alt = "none" /\ strip # {} /\ strip \subseteq OptProps(msgs[mid].k)
 
 \* the replier answered a bad request and now gets the genuine one
-Restart(to, mid, alt) == CleanCopy(to, mid, alt) /\ ds[to] = "Final" /\ ~clean[to] /\ msgs[mid].k = "req"
+Restart(to, mid, alt, strip) == CleanCopy(to, mid, alt, strip) /\ ds[to] = "Final" /\ ~clean[to] /\ msgs[mid].k = "req"
 
-Expected(to, mid, alt) ==
-  /\ CleanCopy(to, mid, alt)
+Expected(to, mid, alt, strip) ==
+  /\ CleanCopy(to, mid, alt, strip)
   /\ \/ ds[to] = "ReqMsg" /\ msgs[mid].k = "req"
      \/ ds[to] = "Reply"  /\ msgs[mid].k = "reply"
      \/ ds[to] = "Final"  /\ msgs[mid].k = "final" /\ clean[to]
-     \/ Restart(to, mid, alt)
+     \/ Restart(to, mid, alt, strip)
 
 SecViol(ds2, clean2, s) ==
        (IF \E p \in Parties : s[p] # 0 /\ ds2[p] \notin Done THEN {"C19_secret_before_completion"} ELSE {})
@@ -85,12 +110,14 @@ AbsReq(K, out, emit, s) ==
   /\ viol' = viol \cup (IF out # "acc" THEN {"C19_genuine_message_refused"} ELSE {}) \cup SecViol(ds', clean, s)
   /\ UNCHANGED <<clean, hurt, accAlt, known>>
 
-\* one delivery; call = plugin call made ("begin_reply" / "process" / "none")
-AbsDlv(K, to, mid, alt, call, out, emit, s) ==
+\* one delivery; call = plugin call made ("begin_reply" / "process" / "none");
+\* alt = how property VALUES / the class id differ from message mid ("none": not at all), strip = properties removed
+AbsDlv(K, to, mid, alt, strip, call, out, emit, s) ==
   LET m        == msgs[mid]
-      cc       == CleanCopy(to, mid, alt)
-      restart  == Restart(to, mid, alt)
-      expected == Expected(to, mid, alt)
+      \* nothing in it stems from an attacker: accepting it is fine (refusing an equivalent copy is unconstrained)
+      cc       == CleanCopy(to, mid, alt, strip) \/ EquivCopy(to, mid, alt, strip)
+      restart  == Restart(to, mid, alt, strip)
+      expected == Expected(to, mid, alt, strip)
       accepted == out = "acc"
       refused  == expected /\ ~accepted
       \* --- blocking
@@ -101,7 +128,7 @@ AbsDlv(K, to, mid, alt, call, out, emit, s) ==
       refKnown == (restart /\ "S13" \in K) \/ (~restart /\ hurt[to] /\ "S7" \in K)
       \* --- safety: completing through a bad message
       badAuth  == ~cc /\ accepted /\ call = "process"
-      s14sig   == to = "A" /\ alt = "none" /\ m.k = "reply" /\ m.by = "B" /\ m.ralt = "b:dh1"
+      s14sig   == to = "A" /\ alt = "none" /\ strip \subseteq OptProps("reply") /\ m.k = "reply" /\ m.by = "B" /\ m.ralt = "b:dh1"
       authClause == IF ~badAuth THEN ""
                     ELSE IF s14sig THEN "C19_S14_reply_built_on_altered_dh1_authenticated"
                     ELSE "C19_bad_message_authenticated"
@@ -110,7 +137,8 @@ AbsDlv(K, to, mid, alt, call, out, emit, s) ==
              ELSE IF call = "begin_reply" THEN "Final"
              ELSE IF ds[to] = "Reply" THEN "DoneS" ELSE IF ds[to] = "Final" THEN "DoneR" ELSE ds[to]
       ncl == IF ~accepted THEN clean[to] ELSE IF call = "begin_reply" THEN cc ELSE clean[to] /\ cc
-      nal == IF ~accepted THEN accAlt[to] ELSE IF cc THEN "none" ELSE IF alt = "none" THEN "tainted" ELSE alt
+      nal == IF ~accepted THEN accAlt[to] ELSE IF cc THEN "none"
+             ELSE IF alt = "none" THEN (IF strip \subseteq OptProps(m.k) THEN "tainted" ELSE "rm") ELSE alt
       ek  == IF call = "begin_reply" THEN "reply" ELSE "final"
       v1  == (IF refused /\ ~refKnown THEN {refClause} ELSE {}) \cup (IF badAuth /\ ~authKnown THEN {authClause} ELSE {})
       k1  == (IF refused /\ refKnown THEN {refClause} ELSE {}) \cup (IF badAuth /\ authKnown THEN {authClause} ELSE {})
